@@ -724,6 +724,32 @@ def check_ram_second_writer(fails_out):
                           % (ids, got.get("error")), "corpus": None})
 
 
+def check_undelete(fails_out):
+    """C07: delete_document(n, delete=False) takes a pending deletion back: the document stays, every other deletion holds"""
+    from whoosh.filedb.filestore import RamStorage
+    from whoosh import query
+    try:
+        ix = RamStorage().create_index(schema())
+        w = ix.writer()
+        for i in range(5):
+            w.add_document(id="d%d" % i, path="/p/d%d" % i, body="alfa", tag="red")
+        w.commit()
+        w = ix.writer()
+        w.delete_document(1)
+        w.delete_document(3)
+        w.delete_document(3, delete=False)
+        flags = [w.is_deleted(i) for i in range(5)]
+        w.commit()
+        with ix.searcher() as s_:
+            ids = sorted(h["id"] for h in s_.search(query.Every(), limit=None))
+        if flags != [False, True, False, False, False] or ids != ["d0", "d2", "d3", "d4"]:
+            fails_out.append({"case": "C07-undelete", "detail": "delete 1, delete 3, undelete 3: is_deleted %r, documents after commit %r"
+                              % (flags, ids), "corpus": None})
+    except Exception as e:
+        fails_out.append({"case": "C07-undelete", "detail": "delete_document(n, delete=False) raised %s: %s" % (type(e).__name__, e),
+                          "corpus": None})
+
+
 def check_buffered(rnd, fails_out):
     """C04 (no committed update is lost) through the BufferedWriter / AsyncWriter front-ends: adds, updates and
     deletions, flushed by commit() or close(), must all be in the reopened index."""
@@ -816,6 +842,7 @@ def main():
     check_toc_selection(fails)
     check_rejected_add(fails)
     check_ram_second_writer(fails)
+    check_undelete(fails)
     shutil.rmtree(tmp, ignore_errors=True)
     seen, uniq = set(), []
     for f in fails:
